@@ -35,12 +35,20 @@ def _roundtrip(x, extension=None):
     return type(b) is bytes and type(y) is type(x) and y == x and t.identifier() == tid and type_identifier_of(x) == tid
 
 
+SPECIAL_TEXT = ["\ufeffx", "\ufeff", "x\ufeff", "\r\n", "a\rb", "\x00", "\x1a", "\ud7ff\ue000", "\U0001F600\u00e9", "\x85\u2028"]
+
+
 def ob_text(s: str) -> bool:
     """
     pre: len(s) <= part("n") and all(not (0xD800 <= ord(c) <= 0xDFFF) for c in s)
     post: _
     """
     ok = _roundtrip(s) and _roundtrip(s, "txt")
+    # CrossHair decodes symbolic bytes through its own codec models; texts that C-level codecs / text wrappers are known to treat
+    # specially (BOM, CR, NUL, line separators, plane boundaries) are therefore ALSO pushed through concretely on every path
+    with nt():
+        for t in SPECIAL_TEXT:
+            ok = ok and _roundtrip(t) and _roundtrip(t, "txt")
     ok = ok and TextStateType().from_bytes(TextStateType().as_bytes(s)[0]) == s
     c = copy_state_data(s)
     return check(ok and c == s)
